@@ -115,7 +115,18 @@ func c01Check(c c01Case) vfResult {
 
 func c01Gen(t *rapid.T) c01Case {
 	var x []byte
-	switch rapid.IntRange(0, 8).Draw(t, "k") {
+	switch rapid.IntRange(0, 9).Draw(t, "k") {
+	case 9: // subtitle-shaped text: a counter line, then a line of two time stamps around an arrow, in every length and spelling
+		ts := func(l string) string {
+			return rapid.SampledFrom([]string{"00:02:16,612", "00:02:16", "0:02:16,61", "00:02:16,6120000", "00:02:16.612", "1:2:3", "00:02", "00:02:16,3760000", "000:02:16,612", "", "::", "00:02:16,", "99:99:99,999", "00;02;16,612"}).Draw(t, l)
+		}
+		first := rapid.SampledFrom([]string{"1", "1", "\xef\xbb\xbf1", "0", "12", " 1", "1 ", "WEBVTT\n\n1"}).Draw(t, "counter")
+		arrow := rapid.SampledFrom([]string{" --> ", " --> ", "-->", " -->", "--> ", " -> ", "  -->  "}).Draw(t, "arrow")
+		nl := rapid.SampledFrom([]string{"\n", "\r\n"}).Draw(t, "snl")
+		x = []byte(first + nl + ts("t1") + arrow + ts("t2") + rapid.SampledFrom([]string{"", " X1:40 X2:600", "\t"}).Draw(t, "cue") + nl + rapid.SampledFrom([]string{"x", "Hello", ""}).Draw(t, "text") + nl)
+		if rapid.Bool().Draw(t, "mut") {
+			x = vfMutate(t, x, 2)
+		}
 	case 8: // a tar archive (long GNU / PAX names included), whole or cut anywhere after its first block
 		x, _ = c18GenArchive(t)
 		if rapid.Bool().Draw(t, "cutarchive") && len(x) > 512 {
